@@ -56,7 +56,7 @@ theorem fieldOf_congr {α} (F : OwnerRec → α) (d : α) {st st' : Core} (h : s
 /-- `regCleanup` only appends to one `cleanups` list -/
 theorem fieldOf_regCleanup {α} (F : OwnerRec → α) (d : α) (st : Core) (tag : Nat) (nested : Bool)
     (hF : ∀ r c, F { r with cleanups := r.cleanups ++ [c] } = F r) (x : Nat) :
-    fieldOf F d (regCleanup st tag nested) x = fieldOf F d st x := by
+    fieldOf F d (regCleanup st tag nested drops) x = fieldOf F d st x := by
   unfold regCleanup
   simp only
   split
@@ -79,8 +79,8 @@ theorem fieldOf_newStored {α} (F : OwnerRec → α) (d : α) (st : Core) (v : I
   unfold newStored
   exact fieldOf_newItem F d st _ hF x
 
-theorem cleanupsOf_regCleanup_mono (st : Core) (tag : Nat) (nested : Bool) (x : Nat) (c : Cleanup)
-    (h : c ∈ cleanupsOf st x) : c ∈ cleanupsOf (regCleanup st tag nested) x := by
+theorem cleanupsOf_regCleanup_mono (st : Core) (tag : Nat) (nested : Bool) (drops : Option Nat) (x : Nat) (c : Cleanup)
+    (h : c ∈ cleanupsOf st x) : c ∈ cleanupsOf (regCleanup st tag nested drops) x := by
   unfold regCleanup
   simp only
   split
